@@ -313,8 +313,10 @@ def classOf (o : Obs) (v : Obj) : String :=
   else if anyObj (fun x => match x with | .func f => f.env / 4 == 1 | _ => false) v then "function-compact-text-reparses-differently"
   else if anyObj (fun x => match x with | .func f => f.env / 2 == 1 | _ => false) v then "function-comments-dropped"
   else if anyObj (fun x => match x with | .float b => isInfNaN b | _ => false) v &&
-      o.globals.any (fun b => (b.name == toBytes "Inf" || b.name == toBytes "NaN") &&
-        !(match b.val with | .float x => isInfNaN x | _ => false)) then "inf-nan-printed-as-shadowed-identifier"
+      o.globals.any (fun b =>
+        (b.name == toBytes "Inf" && !(match b.val with | .float x => x == 0x7FF0000000000000 | _ => false)) ||
+        (b.name == toBytes "NaN" && !(match b.val with | .float x => (f64 x).isNaN | _ => false))) then
+    "inf-nan-printed-as-shadowed-identifier"
   else ""
 
 def hasFunc (v : Obj) : Bool := anyObj (fun x => match x with | .func _ => true | _ => false) v
